@@ -251,7 +251,14 @@ def run_check(prop, tier, seed, jobs, only=None, quiet=False):
     t0 = time.time()
     mod = load_module(prop)
     cases = mod.cases(tier)
-    idxs = [i for i, (n, _f, c) in enumerate(cases) if only is None or only in n or only in json.dumps({k: repr(v) for k, v in c.items()})]
+    def _match(n, c):
+        if only is None:
+            return True
+        hay = [n, json.dumps({k: repr(v) for k, v in c.items()}), json.dumps({k: (v if isinstance(v, (int, float, str, bool, list, type(None))) else repr(v)) for k, v in c.items()}, sort_keys=True)]
+        # several patterns separated by ' && ' must all match (each against the name or one of the renderings of the configuration)
+        return all(any(pat in h for h in hay) for pat in only.split(" && "))
+
+    idxs = [i for i, (n, _f, c) in enumerate(cases) if _match(n, c)]
     tasks = [(prop, i, tier, seed, only) for i in idxs]
     results = []
     if jobs <= 1 or len(tasks) <= 1:
